@@ -7,7 +7,7 @@ from contracts.common import add_common, WF, wf_theory, desc, preorder_facts
 
 VERIFY = ["trees.transform.negra_mark_heads"]
 SHARDS = {"trees.transform.negra_mark_heads": 8}
-TRUSTED = ["contracts of trees.preorder / trees.children assumed (see C19); wf_theory"]
+TRUSTED = ["contracts of trees.preorder / trees.children used at call sites (both verified under C19); wf_theory"]
 ASSUMPTIONS = ["every node carries an 'edge' entry (value may be None); Tree heap model of DESIGN 3.3"]
 
 HEAD = ["has_head", "val_head"]
